@@ -113,7 +113,11 @@ func c02Case(tier string, seed int64, idx int, scratch string) rt.CaseResult {
 		p.TxBias = 30
 	}
 	steps := seqrun.Generate(rng, p)
-	out := runSeq(&c, scratch, "h", dbx.Options{Mode: dbx.Inline, SendDuration: sendDur(idx)}, steps, seqrun.Options{Probe: true}, seed)
+	mode := dbx.Inline
+	if idx%5 == 4 {
+		mode = dbx.Grpc // every fifth history through the server: the levels travel over the wire
+	}
+	out := runSeq(&c, scratch, "h", dbx.Options{Mode: mode, SendDuration: sendDur(idx)}, steps, seqrun.Options{Probe: true}, seed)
 	if r := out.Runner; r != nil {
 		c.Evals = r.Stats.Probes + r.Stats.Steps
 		maxVers := 0
